@@ -23,6 +23,7 @@ static SimLock g_critical, g_atomic;
 Thread* me()
 {
     if (!tl_me) {
+        RtGuard rtg; // the allocation below is the simulator's own: never counted, failed or traced
         Thread* t = new Thread();
         sem_init(&t->sem, 0, 0);
         t->pool_id = -1;
